@@ -359,6 +359,10 @@ func mergeMultiParamLambdas(exprs []ast.Expression) []ast.Expression {
 
 // parseImplicitAlias handles implicit column aliases like "SELECT 'a' c0" (meaning 'a' AS c0)
 func (p *Parser) parseImplicitAlias(expr ast.Expression) ast.Expression {
+	// Nothing to alias if the expression failed to parse
+	if expr == nil {
+		return nil
+	}
 	// Check if current token can be an implicit alias
 	// Can be IDENT or certain keywords that are used as aliases (KEY, VALUE, TYPE, etc.)
 	canBeAlias := p.currentIs(token.IDENT)
